@@ -567,6 +567,27 @@ def to_units(x, unit):
     return r, (abs(v - r) <= 1e-6 * unit)
 
 
+# lexicographic schemes: the library gets  2^34 * S1 + S2  (two magnitudes ten orders apart, or penalties that differ
+# by 6e-11 relatively); TLC gets  1024 * S1 + S2 . Every ORDINAL clause (which of two costs / scores is smaller or
+# equal) is the same for both as long as the S2 part of every compared sum stays below 1024, which holds for the
+# small datasets these schemes are used with (at most 6 elements and 8 rankings: 15 * 8 * 2 < 1024).
+LEX_H_LIB = 2 ** 34
+LEX_H_TLC = 1024
+LEX = [(([0, 1, 1, 0, 1, 1], [1, 1, 0, 1, 1, 0]), ([0, 0, 0, 0, 1, 0], [0, 0, 0, 0, 0, 0])),
+       (([0, 1, 0, 0, 0, 0], [0, 0, 0, 0, 0, 0]), ([0, 0, 1, 0, 1, 1], [1, 1, 0, 1, 1, 0])),
+       (([0, 1, 1, 0, 0, 0], [1, 1, 0, 0, 0, 0]), ([0, 1, 0, 0, 0, 0], [0, 0, 0, 1, 1, 1])),
+       (([0, 1, 1, 0, 1, 0], [1, 1, 0, 1, 1, 0]), ([0, 0, 1, 0, 0, 0], [0, 0, 0, 0, 0, 1])),
+       (([0, 1, 0, 0, 0, 0], [1, 1, 0, 0, 0, 0]), ([0, 0, 2, 1, 1, 0], [1, 1, 0, 0, 0, 1]))]
+
+
+def lex_vectors(k):
+    """-> (penalties for the library, [B, T] for TLC) of the k-th lexicographic scheme"""
+    (B1, T1), (B2, T2) = LEX[k % len(LEX)]
+    lib = [[float(LEX_H_LIB * a + b) for a, b in zip(B1, B2)], [float(LEX_H_LIB * a + b) for a, b in zip(T1, T2)]]
+    tlc = [[LEX_H_TLC * a + b for a, b in zip(B1, B2)], [LEX_H_TLC * a + b for a, b in zip(T1, T2)]]
+    return lib, tlc
+
+
 def presets(unit=4):
     u, h = unit, unit // 2
     out = []
